@@ -148,12 +148,24 @@ def positional_view_uses(prog):
     out = []
     for f in prog.all_functions:
         views = set()
+        checked = set()
+        fa = None
         for s in walk_no_nested(f.node):
             if isinstance(s, ast.Assign) and _is_pos_view(s.value):
+                # a view taken only where the array's field names were compared with the names list (`x.dtype.names[:n] ==
+                # tuple(names)`) has its columns in that order: it is a by-name view, not a positional one
+                from ..q import FA as _FA, guard_facts as _gf
+
+                fa = fa or _FA(f)
+                nid = next(iter(fa.find(lambda x_, s=s: x_ is s)), None)
+                facts = _gf(fa, nid) if nid is not None else []
+                if any(tr_ is True and isinstance(e_, ast.Compare) and len(e_.ops) == 1 and isinstance(e_.ops[0], ast.Eq) and ".dtype.names" in src(e_) and "names" in src(e_.comparators[0]) + src(e_.left).replace(".dtype.names", "") for e_, tr_ in facts):
+                    checked.add(id(s.value))
+                    continue
                 for t in s.targets:
                     if isinstance(t, ast.Name):
                         views.add(t.id)
-        direct = [n for n in walk_no_nested(f.node) if _is_pos_view(n)]
+        direct = [n for n in walk_no_nested(f.node) if _is_pos_view(n) and id(n) not in checked]
         if not views and not direct:
             continue
 
